@@ -122,7 +122,7 @@ impl Probe {
         for (k, (id, d)) in decls.iter().enumerate() {
             let sh = &mut shards[k % nshards];
             sh.mods.push(*id);
-            if d.mac == crate::decl::Mac::Unsized {
+            if d.mac.is_unsized() {
                 sh.with_unsized_support = true;
             }
         }
